@@ -244,3 +244,57 @@ func TestVerifSearch_FlushPrefix(t *testing.T) {
 		verifWitness(t, "requests 1 (backend a) and 2 (backend b) pipelined; a answered request 1, b is silent: the client received nothing, the completed reply %q stays queued behind request 2 for as long as the client keeps a later request outstanding", client.inMsgQueue.head.RspBody)
 	}
 }
+
+// ---- eventloop.msgTimeout: after a request timed out the connection must stay usable ----
+func TestVerifSearch_TimeoutLeavesQueueUsable(t *testing.T) {
+	saved := EngineGlobal
+	defer func() { EngineGlobal = saved }()
+	eng := &engine{opts: &Options{RedisRequestTimeout: 1}}
+	el := &eventloop{engine: eng, connections: map[int]*conn{}}
+	eng.el = el
+	el.eventHandler = &verifHandler{}
+	p, err := netpoll.OpenPoller()
+	if err != nil {
+		t.Skipf("no poller: %v", err)
+	}
+	defer p.Close()
+	el.poller = p
+	EngineGlobal = &Engine{eng: eng, cCodec: CRespCodec{10000}, sCodec: SRespCodec{10000}}
+	sp, err := unix.Socketpair(unix.AF_UNIX, unix.SOCK_STREAM, 0)
+	if err != nil {
+		t.Skipf("socketpair: %v", err)
+	}
+	defer unix.Close(sp[0])
+	defer unix.Close(sp[1])
+	unix.SetNonblock(sp[1], true)
+	mk := func(fd int, typ ConnType) *conn {
+		c := &conn{fd: fd, loop: el, connType: typ, opened: true, initStatus: Initialized,
+			inMsgQueue: &MsgQueue{}, inFragQueue: &FragQueue{}, outFragQueue: &FragQueue{}}
+		c.outboundBuffer, _ = elastic.New(1 << 16)
+		return c
+	}
+	client := mk(sp[0], ConnClient)
+	stalled, healthy := mk(1001, ConnServer), mk(1002, ConnServer)
+	req := func(id uint64, s *conn) *Msg {
+		m := &Msg{Id: id, Type: codec.ReqGet, Owner: client}
+		f := &Frag{Id: id, Owner: client, Peer: m, Type: codec.ReqGet, Key: "k"}
+		m.Body = map[int32]*Frag{int32(id): f}
+		client.EnqueueInMsg(m)
+		s.enqueueInFrag(f) // as handleWriteSignal does: awaiting reply, deadline armed
+		return m
+	}
+	m1 := req(1, stalled)
+	time.Sleep(5 * time.Millisecond)
+	el.msgTimeout() // request 1 expires
+	m2 := req(2, healthy)
+	healthy.buffer = []byte("$1\r\nB\r\n")
+	if err := el.sread(healthy); err != nil {
+		t.Fatalf("sread: %v", err)
+	}
+	for lengthOfTimeoutQueue() > 0 {
+		deleteMinFromTimeoutQueue()
+	}
+	if client.inMsgQueue.count > 0 && client.inMsgQueue.head == m1 && !m1.Done && m2.Done {
+		verifWitness(t, "request 1 timed out (every fragment done, error sent), request 2 was then answered by its backend: request 1 is still at the head of the client's queue and never becomes Done, so the reply to request 2 (%q) and to every later request on this connection is withheld forever", m2.RspBody)
+	}
+}
